@@ -129,6 +129,20 @@ theorem current_identifies_latest (t : TLS) (h : List TAct) (sid aid k : Nat) :
     | succ k ih => intro u; simpa [List.replicate, TLS.run, TLS.step] using ih u
   constructor <;> (rw [TLS.run_append, TLS.run_append, hd]; rfl)
 
+/-- **`System::current().id()` tells Systems apart**: the ids handed out by any number of `System`
+constructions — concurrent ones included, the `fetch_add`s being linearised — are pairwise distinct
+(so two live Systems, and the arbiters that carry a clone of their System, never report the same id). -/
+theorem system_ids_distinct (c n : Nat) : (fetchAdds c n).Nodup ∧ ∀ x ∈ fetchAdds c n, c ≤ x := by
+  induction n generalizing c with
+  | zero => exact ⟨List.nodup_nil, fun _ h => by cases h⟩
+  | succ n ih =>
+    obtain ⟨hn, hge⟩ := ih (c + 1)
+    refine ⟨List.nodup_cons.mpr ⟨fun h => ?_, hn⟩, fun x hx => ?_⟩
+    · have := hge c h; omega
+    · rcases List.mem_cons.mp hx with e | e
+      · omega
+      · have := hge x e; omega
+
 /-- **`block_on` returns exactly its future's output** (glue: the future is abstracted to "pending
 `pend` times, then `out`"; that the real `Runtime::block_on` behaves like this rests on the
 correspondence run, `blockon` ops). -/
@@ -157,6 +171,7 @@ example : (run (run init demo) [.runner 0, .send 0 (.exec 13), .close 0, .send 0
     = [true, true, true, true, true, false] := by decide
 example : joinReturns (run (run init demo) [.runner 0, .close 0, .fin 0]) 0 = true := by decide
 example : blockOn ({ pend := 3, out := 42 } : Fut Nat) = some 42 := by decide
+example : fetchAdds 5 4 = [5, 6, 7, 8] := by decide
 -- a task on arbiter 0 (10, started) sends to its own arbiter while 11 — sent by another thread — is still
 -- buffered: 12 queues behind 11; whichever way the run goes on, 12 starts after 10 and 11
 def selfSend : List Act :=
